@@ -65,7 +65,9 @@ func externalKind(fn *ssa.Function) string {
 	case "context":
 		return "pure"
 	case "sync/atomic":
-		return ""
+		// atomic operations write only their own cell, which is not modelled
+		// (values read from it are unconstrained)
+		return "pure"
 	case "runtime":
 		switch name {
 		case "Stack":
@@ -105,6 +107,10 @@ func externalDeterministic(fn *ssa.Function) bool {
 		return true
 	case "context":
 		return fn.Name() == "Background" || fn.Name() == "TODO"
+	case "errors":
+		// errors.Is is a function of its two error values (the chains they
+		// unwrap to are immutable once built)
+		return fn.Name() == "Is"
 	}
 	return false
 }
@@ -190,10 +196,14 @@ func (fr *Frame) call(st *State, instr ssa.Instruction, c *ssa.CallCommon, v ssa
 		args = append(args, fr.val(a))
 	}
 	if b, ok := c.Value.(*ssa.Builtin); ok {
+		// assert-at append / copy / delete ... : sites of Go builtins
+		fr.assertAt(st, b.Name(), args, instr.Pos())
 		return fr.builtin(st, b, c, args, v, instr.Pos())
 	}
 	name := calleeName(c)
 	callee := c.StaticCallee()
+	vc.curCall, vc.curCaller, vc.curFrame = c, fr.fn, fr
+	defer func() { vc.curCall, vc.curCaller, vc.curFrame = nil, nil, nil }()
 	var fnv Val
 	if !c.IsInvoke() {
 		fnv = fr.val(c.Value)
@@ -209,7 +219,7 @@ func (fr *Frame) call(st *State, instr ssa.Instruction, c *ssa.CallCommon, v ssa
 	setResult := func(r []Val) {
 		vc.lastRet[name] = r
 		if fr.top {
-			vc.retLog = append(vc.retLog, retEntry{name, vc.curBlock, r, vc.callN[name]})
+			vc.retLog = append(vc.retLog, retEntry{name, vc.curBlock, r, vc.callN[name], vc.curReach})
 		}
 		if v == nil {
 			return
@@ -288,7 +298,7 @@ func (fr *Frame) recordRet(name string, v ssa.Value) {
 	}
 	fr.vc.lastRet[name] = vals
 	if fr.top {
-		fr.vc.retLog = append(fr.vc.retLog, retEntry{name, fr.vc.curBlock, vals, fr.vc.callN[name]})
+		fr.vc.retLog = append(fr.vc.retLog, retEntry{name, fr.vc.curBlock, vals, fr.vc.callN[name], fr.vc.curReach})
 	}
 }
 
@@ -381,6 +391,11 @@ func (vc *VC) topBinds() map[string]Val {
 func (fr *Frame) inlineCall(st *State, callee *ssa.Function, args []Val, binds []Val) ([]Val, bool) {
 	vc := fr.vc
 	sub := vc.newFrame(callee, fr.depth+1, fr.spec)
+	if fr.depth > 0 {
+		sub.site = fr.site
+	} else {
+		sub.site = fr.curPos
+	}
 	sub.bindParams(args)
 	for i, fv := range callee.FreeVars {
 		if i < len(binds) {
@@ -522,6 +537,9 @@ func (fr *Frame) contractCall(st *State, con *Contract, callee *ssa.Function, ar
 		env := &SpecEnv{vc: vc, fn: callee, pkgPath: con.PkgPath, binds: binds, cur: st, old: pre}
 		vc.assumeAt(st, env.boolExpr(en.Expr))
 	}
+	if len(con.Keeps) > 0 && !con.Pure {
+		vc.keepsAssume(con, pre, st)
+	}
 	return res
 }
 
@@ -607,6 +625,26 @@ func (vc *VC) modVars(con *Contract, callee *ssa.Function, m string) ([]string, 
 	if m == "fresh" {
 		return nil, false
 	}
+	// the cell a pointer refers to: *expr
+	if strings.HasPrefix(m, "*") && len(m) > 1 {
+		if t := vc.eng.specType(con.PkgPath, callee, m[1:]); t != nil {
+			if pt, ok := t.Underlying().(*types.Pointer); ok {
+				return vc.varsOfType(pt.Elem()), false
+			}
+		}
+		vc.eng.errorf("%s: cannot resolve modifies entry %q", con.Target, m)
+		return nil, true
+	}
+	// spare capacity of a slice (elements between its length and capacity): spare(expr)
+	if strings.HasPrefix(m, "spare(") && strings.HasSuffix(m, ")") {
+		if t := vc.eng.specType(con.PkgPath, callee, m[6:len(m)-1]); t != nil {
+			if sl, ok := t.Underlying().(*types.Slice); ok {
+				return vc.varsOfType(sl.Elem()), false
+			}
+		}
+		vc.eng.errorf("%s: cannot resolve modifies entry %q", con.Target, m)
+		return nil, true
+	}
 	// elements of a slice: expr[*]
 	if strings.HasSuffix(m, "[*]") {
 		if t := vc.eng.specType(con.PkgPath, callee, strings.TrimSuffix(m, "[*]")); t != nil {
@@ -668,8 +706,34 @@ func (vc *VC) modVars(con *Contract, callee *ssa.Function, m string) ([]string, 
 // modLocation: for `expr.field` entries where expr is not a type name, the
 // single modified location (base reference).  ok=false means whole-variable.
 func (vc *VC) modLocation(con *Contract, callee *ssa.Function, m string, binds map[string]Val, pre *State) (Term, bool) {
+	if strings.HasPrefix(m, "spare(") && strings.HasSuffix(m, ")") {
+		// a range of references: returned as a predicate over the placeholder ?r
+		e, err := parseSpecExpr(m[6 : len(m)-1])
+		if err != nil {
+			return "", false
+		}
+		env := &SpecEnv{vc: vc, fn: callee, pkgPath: con.PkgPath, binds: binds, cur: pre, old: pre}
+		v := env.eval(e)
+		if v.T == "" {
+			return "", false
+		}
+		s := vc.define("spare", "Slice", v.T)
+		return fmt.Sprintf("RANGE:(and ((_ is elem) ?r) (= (e.arr ?r) (s.arr %s)) (<= (+ (s.off %s) (s.len %s)) (e.idx ?r)) (< (e.idx ?r) (+ (s.off %s) (s.cap %s))))", s, s, s, s, s), true
+	}
 	if strings.HasSuffix(m, "[*]") || m == "*" || m == "fresh" {
 		return "", false
+	}
+	if strings.HasPrefix(m, "*") {
+		e, err := parseSpecExpr(m[1:])
+		if err != nil {
+			return "", false
+		}
+		env := &SpecEnv{vc: vc, fn: callee, pkgPath: con.PkgPath, binds: binds, cur: pre, old: pre}
+		v := env.eval(e)
+		if v.T == "" {
+			return "", false
+		}
+		return v.T, true
 	}
 	i := strings.LastIndex(m, ".")
 	if i < 0 {
@@ -728,9 +792,24 @@ func (fr *Frame) applyModifies(st, pre *State, con *Contract, callee *ssa.Functi
 		cur := vc.get(st, name)
 		sortS := vc.heapSort[name]
 		elemSort := strings.TrimSuffix(strings.TrimPrefix(sortS, "(Array Ref "), ")")
+		var ranges []Term
 		for _, l := range locs[name] {
+			if strings.HasPrefix(l, "RANGE:") {
+				ranges = append(ranges, strings.TrimPrefix(l, "RANGE:"))
+				continue
+			}
 			nv := vc.freshConst(name+"_at", elemSort)
 			cur = "(store " + cur + " " + l + " " + nv + ")"
+		}
+		if len(ranges) > 0 {
+			// everything outside the ranges keeps the value it has in cur
+			nh := vc.freshConst(name, sortS)
+			var in []Term
+			for _, rg := range ranges {
+				in = append(in, strings.ReplaceAll(rg, "?r", "r"))
+			}
+			vc.assumeAt(st, fmt.Sprintf("(forall ((r Ref)) (! (=> (not %s) (= (select %s r) (select %s r))) :pattern ((select %s r))))", smtOr(in...), nh, cur, nh))
+			cur = nh
 		}
 		vc.set(st, name, cur)
 	}
@@ -753,7 +832,7 @@ func (fr *Frame) wantsPanicEdges() bool {
 	if fr.spec || vc.con == nil {
 		return false
 	}
-	return len(vc.con.OnPanic) > 0 || vc.con.NoPanic || vc.fn.Recover != nil
+	return len(vc.con.OnPanic) > 0 || vc.con.NoPanic || vc.fn.Recover != nil || len(vc.con.Keeps) > 0
 }
 
 // mayPanic records the panic edge of a call: the state in which the callee
@@ -775,6 +854,10 @@ func (fr *Frame) mayPanic(pre *State, con *Contract, callee *ssa.Function, binds
 		for _, en := range con.OnPanic {
 			env := &SpecEnv{vc: vc, fn: callee, pkgPath: con.PkgPath, binds: binds, cur: ps, old: pre}
 			vc.assumeAt(ps, env.boolExpr(en.Expr))
+		}
+		// `keeps` holds on panicking exits too (it is proved there as well)
+		if len(con.Keeps) > 0 {
+			vc.keepsAssume(con, pre, ps)
 		}
 	}
 	vc.panicSites = append(vc.panicSites, "call "+name)
@@ -826,10 +909,11 @@ func (fr *Frame) finishPanics() {
 	esc := ps.clone()
 	esc.reach = vc.define("panic_escapes", "Bool", smtAnd(ps.reach, smtNot(rec)))
 	if vc.con.NoPanic {
-		o := vc.oblige(esc, "nopanic", "no panic escapes (sites: "+fmt.Sprint(len(vc.panicSites))+")", "false", fr.fn.Pos())
+		// the name is independent of how many sites there are (harmless edits add or remove some)
+		o := vc.oblige(esc, "nopanic", "no panic escapes", "false", fr.fn.Pos())
 		if o != nil {
 			o.Pos = vc.con.Pos
-			o.Note = strings.Join(vc.panicSites, "; ")
+			o.Note = fmt.Sprintf("%d panic sites: ", len(vc.panicSites)) + strings.Join(vc.panicSites, "; ")
 		}
 		return
 	}
@@ -839,6 +923,9 @@ func (fr *Frame) finishPanics() {
 		if o != nil {
 			o.Pos = op.Pos
 		}
+	}
+	if len(vc.con.Keeps) > 0 {
+		vc.keepsOblige(vc.con, vc.entry, esc, "keeps-on-panic", fr.fn.Pos())
 	}
 }
 
@@ -908,6 +995,20 @@ func (fr *Frame) deferredCall(st *State, d *deferRec, panicking bool) {
 // externalCall models a call to a function outside the repository.
 func (fr *Frame) externalCall(st *State, callee *ssa.Function, kind string, c *ssa.CallCommon, args []Val, v ssa.Value) {
 	vc := fr.vc
+	// documented panics of standard-library functions are safety obligations
+	switch callee.String() {
+	case "strings.Repeat", "bytes.Repeat":
+		if len(args) == 2 {
+			var n Term
+			if isString(c.Args[0].Type()) {
+				n = vc.slenOf(args[0].T)
+			} else {
+				n = "(s.len " + args[0].T + ")"
+			}
+			fr.oblige(st, "panic", callee.String()+": count is not negative", "(>= "+args[1].T+" 0)", c.Pos())
+			fr.oblige(st, "panic", callee.String()+": output length does not overflow", "(<= (* "+n+" "+args[1].T+") 9223372036854775807)", c.Pos())
+		}
+	}
 	if kind == "elems" {
 		for _, a := range c.Args {
 			if sl, ok := a.Type().Underlying().(*types.Slice); ok {
@@ -927,7 +1028,7 @@ func (fr *Frame) externalCall(st *State, callee *ssa.Function, kind string, c *s
 		variadic := ""
 		for i, a := range c.Args {
 			switch a.Type().Underlying().(type) {
-			case *types.Basic, *types.Struct:
+			case *types.Basic, *types.Struct, *types.Interface:
 				sorts = append(sorts, vc.sortOf(a.Type()))
 				terms = append(terms, args[i].T)
 			default:
@@ -1018,6 +1119,23 @@ func (fr *Frame) externalFacts(st *State, callee *ssa.Function, args []Val, v ss
 		if c, ok := fr.argConst(v, 0); ok && len(c) > 0 && c[0] != '%' && full == "fmt.Sprintf" {
 			vc.assume("(>= " + vc.slenOf(r.T) + " 1)")
 			vc.note("assumed contract fmt.Sprintf: a format beginning with literal text yields a non-empty string")
+			// ... that begins with that text (up to the first verb)
+			lit := c
+			if i := strings.IndexByte(lit, '%'); i >= 0 {
+				lit = lit[:i]
+			}
+			if len(lit) > 16 {
+				lit = lit[:16]
+			}
+			if vc.smtStr {
+				vc.assume("(str.prefixof " + vc.strConst(lit) + " " + r.T + ")")
+			} else {
+				vc.assume(fmt.Sprintf("(>= %s %d)", vc.slenOf(r.T), len(lit)))
+				for i := 0; i < len(lit); i++ {
+					vc.assume(fmt.Sprintf("(= (sat %s %d) %d)", r.T, i, lit[i]))
+				}
+			}
+			vc.note("assumed contract fmt.Sprintf: the result begins with the literal text that precedes the first verb of a constant format")
 		}
 	case "path/filepath.EvalSymlinks":
 		if len(r.Tuple) == 2 {
@@ -1208,7 +1326,7 @@ func (fr *Frame) appendB(st *State, c *ssa.CallCommon, args []Val, v ssa.Value, 
 	newArr := vc.newObj(st, fr.prefix+"app_arr")
 	newCap := vc.freshConst(fr.prefix+"app_cap", "Int")
 	newLen := "(+ (s.len " + s.T + ") " + n + ")"
-	vc.assume(fmt.Sprintf("(and (>= %s %s) (<= %s 4611686018427387904))", newCap, newLen, newCap))
+	vc.assume(fmt.Sprintf("(and (>= %s %s) (<= %s 281474976710656))", newCap, newLen, newCap))
 	// Go: append with zero new elements returns the slice unchanged
 	res := fmt.Sprintf("(ite %s (mk-slice (s.arr %s) (s.off %s) %s (s.cap %s)) (mk-slice %s 0 %s %s))", fits, s.T, s.T, newLen, s.T, newArr, newLen, newCap)
 	res = smtIte("(= "+n+" 0)", s.T, res)
